@@ -9,7 +9,7 @@ from .common import rat, fmt_list, fmt_nd, fmt_grids, parse_nd, close
 from .integ_common import *
 
 PROP = 'C03'
-GENERATED = ['Coeffs']
+GENERATED = ['Coeffs', 'EqSwitch']
 NEEDS_BUILD = True
 DRIVER_MODULES = ['Integ']
 
@@ -108,26 +108,87 @@ def timefun(rng, v, T, positive=True):
     a = float(rng.uniform(0.2, 1.0)); w = float(rng.uniform(0.5, 3)) / max(T, 1e-3)
     return lambda t, v=v, a=a, w=w: v * (1 + 0.5 * a * math.sin(w * t))
 
+class delj_trick:
+    """run a block with the module option Integration.use_delj_trick set (and restored afterwards)"""
+    def __init__(self, I, on): self.I = I; self.on = bool(on)
+    def __enter__(self): self.old = self.I.use_delj_trick; self.I.use_delj_trick = self.on
+    def __exit__(self, *a): self.I.use_delj_trick = self.old
+
+# Parameter regimes.  The invariance is exact, so every regime switch on the way (the fallback of Chang-Cooper's delj, the
+# sign tests of the boundary fluxes, the positivity test of the time-step rule, overflow guards) has to be decided by
+# reference-size-invariant quantities.  To put the raw (reference-size dependent) rates m, gamma, gamma/c, m/c and the invariant
+# ones (gamma*nu, m*nu, drift/diffusion ratios per cell) on opposite sides of whatever threshold a guard may use:
+#   'moderate'  rates of order 1..10 (the bulk), any c in [0.05,20]
+#   'wide'      magnitudes log-uniform over ten decades (1e-9 .. 30): every cell quantity and its c-fold sweep a continuum of
+#               absolute sizes.  c is a power of two there: the two computations are then the same floating-point
+#               computation up to exact binary scalings, so the comparison is sharp however small the drift
+#               (with a general c the closed form of delj loses eps/r digits for a drift/diffusion ratio r -> 0)
+#   'strong'    |gamma*nu| = 30..600 with nu log-uniform in 0.02..50: raw gamma between ~1 and ~3e4, so |gamma| and |gamma*nu|
+#               differ by up to a factor 50 either way
+REGIMES = ['moderate', 'wide', 'strong']
+
+def regime_model(rng, d, regime, delj=False, xx=None):
+    nus, ms, gammas, hs, th, fr, nm = random_model(rng, d)
+    if delj:
+        # Chang-Cooper's delj evaluates exp(r), r = 2*M*dx/V per cell (|r| <= 4|gamma*nu|dx + 4 nu sum(m)): stay below the
+        # overflow of exp (r ~ 709), which is the same for both parameterisations and not the subject here
+        ms = {(i, j): min(v, 40.0 / (nus[i] * max(d - 1, 1))) for (i, j), v in ms.items()}
+    if regime == 'wide':
+        gammas = [float(rng.choice([-1.0, 1.0])) * gen.loguniform(rng, 1e-9, 30) for _ in range(d)]
+        ms = {k: (gen.loguniform(rng, 1e-9, 10) if v != 0 else 0.0) for k, v in ms.items()}
+    elif regime == 'strong':
+        nus = [gen.loguniform(rng, 0.02, 50) for _ in range(d)]
+        gmax = 600.0
+        if delj:
+            gmax = min(gmax, 100.0 / float(np.max(np.diff(xx))))
+            ms = {(i, j): min(v, 40.0 / (nus[i] * max(d - 1, 1))) for (i, j), v in ms.items()}       # nus were redrawn
+        gammas = [float(rng.choice([-1.0, 1.0])) * gen.loguniform(rng, 30, gmax) / nus[i] for i in range(d)]
+    return nus, ms, gammas, hs, th, fr, nm
+
+def pick_c(rng, it, regime):
+    """reference-size ratio: the end points 0.05 and 20 of the quantified range, powers of two, anything in between"""
+    if regime == 'wide':
+        return float(rng.choice([1 / 16, 1 / 8, 8.0, 16.0]))
+    k = it % 4
+    if k == 0: return float(2.0 ** int(rng.choice([-4, -3, -2, -1, 1, 2, 3, 4])))
+    if k == 1: return float(rng.choice([0.05, 20.0]))
+    return gen.loguniform(rng, 0.05, 20)
+
+def short_T(dadi, rng, d, xx, nus, ms, gammas, hs, lo=1.5, hi=5.5):
+    """a duration of a few time steps of the schedule the drivers will choose"""
+    I = dadi.Integration
+    dt = min(I._compute_dt(np.diff(xx), nus[i], [ms[(i, j)] for j in range(d) if j != i] or [0], gammas[i], hs[i]) for i in range(d))
+    return float(dt * rng.uniform(lo, hi))
+
 def l3_superposition(chk, ctx, rng, n, tier):
-    dadi = ctx['dadi']
+    dadi = ctx['dadi']; I = dadi.Integration
     for it in range(n):
         d = 1 + it % 5
         pts = {1: 20, 2: 12, 3: 9, 4: 6, 5: 5}[d] + int(rng.integers(0, 3))
         xx = dadi.Numerics.default_grid(pts)
         phi1 = gen.density(rng, [pts] * d); phi2 = gen.density(rng, [pts] * d)
-        nus, ms, gammas, hs, th, fr, nm = random_model(rng, d)
+        delj = bool((it // 10) % 2)
+        regime = REGIMES[(it // 20) % 3]
+        nus, ms, gammas, hs, th, fr, nm = regime_model(rng, d, regime, delj, xx)
         th1, th2 = float(rng.uniform(0, 3)), float(rng.uniform(0, 3))
         a, b = float(rng.uniform(-2, 3)), float(rng.uniform(-2, 3))
         if a * th1 + b * th2 < 0:          # the drivers reject a negative theta0: keep the combination admissible
             a, b = abs(a), abs(b)
         # degenerate members of the family, where a shortcut on "nothing to do" would go wrong: a zero density with theta0 != 0
-        # ((phi, th) = (phi, 0) + (0, th)), and a combination whose densities cancel exactly while the mutation rates do not
-        shape = ['generic', 'zero-density', 'cancelling', 'generic'][(it // 5) % 4]
+        # ((phi, th) = (phi, 0) + (0, th)), and a combination whose densities cancel exactly while the mutation rates do not;
+        # and members far from unit size (everything tiny / everything huge): a cut-off on the absolute size of a density
+        # entry or of the mutation influx would break additivity there
+        shape = ['generic', 'zero-density', 'cancelling', 'generic', 'tiny', 'huge'][(it // 5) % 6]
         if shape == 'zero-density':
             phi2 = np.zeros_like(phi1); th1 = 0.0; a, b = 1.0, 1.0; th2 = max(th2, 0.1)
         elif shape == 'cancelling':
             phi2 = phi1.copy(); a, b = 1.0, -1.0; th1, th2 = max(th1, th2) + 0.5, min(th1, th2)
-        T = float(rng.uniform(0.005, 0.05))
+        elif shape == 'tiny':
+            s1, s2 = gen.loguniform(rng, 1e-14, 1e-6), gen.loguniform(rng, 1e-14, 1e-6)
+            phi1 = phi1 * s1; th1 = th1 * s1; phi2 = phi2 * s2; th2 = th2 * s2; a, b = abs(a) + 0.1, abs(b) + 0.1
+        elif shape == 'huge':
+            a, b = gen.loguniform(rng, 1e3, 1e9), gen.loguniform(rng, 1e3, 1e9)
+        T = float(rng.uniform(0.005, 0.05)) if regime == 'moderate' else short_T(dadi, rng, d, xx, nus, ms, gammas, hs)
         varying = bool((it + it // 5) % 2)
         def run(phi, theta):
             kw = kwargs_for(d, nus, ms, gammas, hs, theta, fr, nm)
@@ -136,10 +197,13 @@ def l3_superposition(chk, ctx, rng, n, tier):
                 kw[nm0] = (lambda t, v=nus[0]: v * (1 + 0.3 * math.sin(40 * t)))
                 if isinstance(theta, float):
                     kw['theta0'] = (lambda t, v=theta: v * (1 + 0.2 * t))
-            return integrate(dadi, d, phi, xx, T, **kw)        # the caller's arrays are passed as they are (and re-used below)
-        key = 'superposition:%dD:varying=%s:%s' % (d, varying, shape)
+            with delj_trick(I, delj):
+                return integrate(dadi, d, phi, xx, T, **kw)        # the caller's arrays are passed as they are (and re-used below)
+        key = 'superposition:%dD:varying=%s:%s' % (d, varying, shape) + (':delj' if delj else '') + ('' if regime == 'moderate' else ':' + regime)
         chk.l3((key, tuple(fr), tuple(nm)))
-        inp = dict(d=d, pts=pts, nus=nus, ms=str(ms), gammas=gammas, hs=hs, frozen=fr, nomut=nm, th1=th1, th2=th2, a=a, b=b, T=T, varying=varying, shape=shape)
+        chk.stat('superposition:delj=%s:%s' % (delj, regime))
+        inp = dict(d=d, pts=pts, nus=nus, ms=str(ms), gammas=gammas, hs=hs, frozen=fr, nomut=nm, th1=th1, th2=th2, a=a, b=b, T=T, varying=varying,
+                   shape=shape, use_delj_trick=delj, regime=regime)
         try:
             r1 = run(phi1, th1); r2 = run(phi2, th2)
             r12 = run(a * phi1 + b * phi2, a * th1 + b * th2)   # built from the same phi1, phi2 after they were integrated
@@ -152,16 +216,21 @@ def l3_superposition(chk, ctx, rng, n, tier):
             chk.fail(key, 'F(a*phi1+b*phi2, a*th1+b*th2) differs from a*F(phi1,th1)+b*F(phi2,th2) by %.3g (scale %.3g)' % (err, scale), inp)
 
 def l3_rescale(chk, ctx, rng, n, tier):
-    dadi = ctx['dadi']
+    """(nu, T, m, gamma, theta0) -> (c nu, c T, m/c, gamma/c, theta0/c) on one_pop..five_pops: constant parameters (pre-computed
+    tridiagonal systems in 1-3 populations) and time-varying ones (systems built on the fly by the C kernels, as in every 4/5
+    population run), Integration.use_delj_trick off and on, in each parameter regime."""
+    dadi = ctx['dadi']; I = dadi.Integration
     for it in range(n):
         d = 1 + it % 5
         pts = {1: 20, 2: 12, 3: 9, 4: 6, 5: 5}[d] + int(rng.integers(0, 3))
         xx = dadi.Numerics.default_grid(pts)
         phi = gen.density(rng, [pts] * d)
-        nus, ms, gammas, hs, th, fr, nm = random_model(rng, d)
-        c = float(2.0 ** int(rng.integers(-4, 5))) if it % 2 == 0 else gen.loguniform(rng, 0.05, 20)
-        T = float(rng.uniform(0.005, 0.05))
         varying = bool((it // 5) % 2)
+        delj = bool((it // 10) % 2)
+        regime = REGIMES[(it // 20) % 3]
+        nus, ms, gammas, hs, th, fr, nm = regime_model(rng, d, regime, delj, xx)
+        c = pick_c(rng, it, regime)
+        T = float(rng.uniform(0.005, 0.05)) if regime == 'moderate' else short_T(dadi, rng, d, xx, nus, ms, gammas, hs)
         kw = kwargs_for(d, nus, ms, gammas, hs, th, fr, nm)
         kwc = kwargs_for(d, [c * v for v in nus], {k: v / c for k, v in ms.items()}, [g / c for g in gammas], hs, th / c, fr, nm)
         if varying:
@@ -169,18 +238,24 @@ def l3_rescale(chk, ctx, rng, n, tier):
             f = (lambda t, v=nus[0]: v * (1 + 0.3 * math.sin(40 * t)))
             kw[nm0] = f
             kwc[nm0] = (lambda t, f=f, c=c: c * f(t / c))
-        key = 'rescale:%dD:varying=%s' % (d, varying)
-        chk.l3((key, tuple(fr), c == 2.0 ** round(math.log2(c)) if c > 0 else False))
-        inp = dict(d=d, pts=pts, c=c, nus=nus, ms=str(ms), gammas=gammas, hs=hs, frozen=fr, nomut=nm, theta0=th, T=T, varying=varying)
+        pow2 = c == 2.0 ** round(math.log2(c))
+        key = 'rescale:%dD:varying=%s' % (d, varying) + (':delj' if delj else '') + ('' if regime == 'moderate' else ':' + regime)
+        chk.l3((key, tuple(fr), pow2))
+        chk.stat('rescale:delj=%s:%s' % (delj, regime))
+        inp = dict(d=d, pts=pts, c=c, nus=nus, ms=str(ms), gammas=gammas, hs=hs, frozen=fr, nomut=nm, theta0=th, T=T, varying=varying,
+                   use_delj_trick=delj, regime=regime)
         try:
-            r = integrate(dadi, d, phi, xx, T, **kw)
-            rc = integrate(dadi, d, phi, xx, c * T, **kwc)        # same starting density object, second parameterisation
+            with delj_trick(I, delj):
+                r = integrate(dadi, d, phi, xx, T, **kw)
+                rc = integrate(dadi, d, phi, xx, c * T, **kwc)        # same starting density object, second parameterisation
         except Exception as e:
             chk.fail(key + ':raises:' + type(e).__name__, 'integrator raises %r' % (e,), inp); continue
-        ok, err, scale = close(rc, r, rtol=1e-9)
+        # a power of two re-scales every intermediate exactly: nothing but the last bits may differ
+        ok, err, scale = close(rc, r, rtol=1e-12 if regime == 'wide' else 1e-9)
         # T may sit within round-off of a multiple of dt: then one run takes an extra negligible step — still equal to 1e-9
         if not ok:
-            chk.fail(key, 'densities differ by %.3g (scale %.3g) after re-expressing relative to a reference size %g times larger' % (err, scale, c), inp)
+            chk.fail(key, 'densities differ by %.3g (scale %.3g) after re-expressing relative to a reference size %g times larger%s' % (
+                err, scale, c, ' (Integration.use_delj_trick = True)' if delj else ''), inp)
 
 def l3_dt_wiring(chk, ctx, rng, n):
     """The time-step rule is applied to the right quantities at every call site: each driver (constant and
@@ -242,34 +317,114 @@ def l3_dt_wiring(chk, ctx, rng, n):
         if not (abs(dtc - c * dt1) <= 1e-12 * abs(c * dt1)):
             chk.fail(key + ':homogeneity', 'dt after re-scaling by c=%g is %.17g, expected c*dt = %.17g' % (c, dtc, c * dt1), inp)
 
+EQ_VARIANTS = ['genic', 'dominance', 'genic', 'dominance', 'genic', 'snm']
+EQ_STRATA = ['weak', 'mid', 'near', 'strong']
+
+def eq_params(rng, it):
+    """One equilibrium in two parameterisations (nu, gamma) and (c nu, gamma/c).  The density depends on the effective selection
+    G = gamma*nu*4beta/(beta+1)^2 only, so G is drawn first, per stratum: weak (the exact closed form and its large-|G| asymptote
+    differ visibly), mid, near (around the switch to the asymptotic / re-normalised forms), strong (exp(2|G|) overflows).  Then
+    the raw coefficients are placed on purpose: |gamma| of one parameterisation below and of the other above a pivot drawn
+    log-uniformly in 20..2000 (not tied to the constants in the source), as far as nu stays within 1e-3..1e3 — so that a
+    switch decided on the raw gamma (or on nu) instead of G takes different branches for the two."""
+    variant = EQ_VARIANTS[it % len(EQ_VARIANTS)]
+    stratum = EQ_STRATA[(it // len(EQ_VARIANTS)) % len(EQ_STRATA)]
+    beta = 1.0 if rng.random() < 0.6 else gen.loguniform(rng, 0.2, 5)
+    bf = 4 * beta / (beta + 1) ** 2
+    h = 0.5 if variant != 'dominance' else float(rng.choice([rng.uniform(0.05, 0.45), rng.uniform(0.55, 0.95)]))
+    th = float(rng.uniform(0.5, 2))
+    k = int(rng.integers(4))
+    c = [0.05, 20.0, float(2.0 ** int(rng.choice([-4, -3, -2, -1, 1, 2, 3, 4]))), gen.loguniform(rng, 0.05, 20)][k]
+    if variant == 'snm':
+        return dict(variant=variant, stratum='-', nu=gen.loguniform(rng, 1e-2, 1e2), gamma=0.0, h=h, beta=beta, theta0=th, c=c, G=0.0, straddle=False)
+    absG = {'weak': float(rng.uniform(0.5, 9)), 'mid': float(rng.uniform(9, 250)), 'near': float(rng.uniform(250, 350)),
+            'strong': gen.loguniform(rng, 350, 1500)}[stratum]
+    G = -absG if rng.random() < 0.65 else absG
+    straddle = False
+    for _ in range(20):
+        pivot = gen.loguniform(rng, 20, 2000)
+        u = float(rng.uniform(0.05, 0.95))
+        ga = pivot * c ** u                  # |gamma| of the first parameterisation; the second has |gamma|/c
+        nu = absG / (ga * bf)
+        if 1e-3 <= nu <= 1e3 and 1e-3 <= c * nu <= 1e3:
+            straddle = True; break
+    if not straddle:
+        nu = gen.loguniform(rng, max(1e-2, 1e-2 / c), min(1e2, 1e2 / c)); ga = absG / (nu * bf)
+    return dict(variant=variant, stratum=stratum, nu=nu, gamma=math.copysign(ga, G), h=h, beta=beta, theta0=th, c=c, G=G, straddle=straddle)
+
+def eq_same(a, b, rtol=1e-9):
+    """entry by entry: a guard that matters only where the density is exponentially small still has to be found"""
+    a = np.asarray(a, float); b = np.asarray(b, float)
+    if not (np.all(np.isfinite(a)) and np.all(np.isfinite(b))):
+        return False, float('inf')
+    tiny = 1e-280
+    err = np.abs(a - b) / np.maximum(np.maximum(np.abs(a), np.abs(b)), tiny)
+    err = np.where(np.maximum(np.abs(a), np.abs(b)) < tiny, 0.0, err)
+    return bool(np.all(err <= rtol)), float(np.max(err))
+
 def l3_equilibrium(chk, ctx, rng, n):
-    """the equilibrium constructors are part of 'whole models': phi_1D(c*nu, theta0/c, gamma/c) must equal phi_1D(nu, theta0, gamma)"""
+    """the equilibrium constructors are part of 'whole models': phi_1D(c*nu, theta0/c, gamma/c) must equal phi_1D(nu, theta0, gamma),
+    finite and entry by entry, in every regime of the effective selection and wherever the raw coefficients fall"""
+    dadi = ctx['dadi']; P = dadi.PhiManip
+    xx = dadi.Numerics.default_grid(30)
+    for it in range(n):
+        q = eq_params(rng, it)
+        key = 'equilibrium-rescale:%s' % ('snm' if q['gamma'] == 0 else q['variant'])
+        chk.l3((key, q['stratum'], q['G'] < 0, q['straddle'], q['beta'] == 1.0))
+        chk.stat('equilibrium:%s:%s' % (q['stratum'], 'raw-straddles-pivot' if q['straddle'] else 'free'))
+        for thr in (300.0,):   # coverage report only: how often |gamma| and |G| end up on opposite sides of the source's own constant
+            if (abs(q['gamma']) > thr) != (abs(q['G']) > thr) or (abs(q['gamma'] / q['c']) > thr) != (abs(q['G']) > thr):
+                chk.stat('equilibrium:raw-and-effective-on-opposite-sides-of-300')
+        inp = {k: v for k, v in q.items()}
+        nu, th, gamma, h, beta, c = q['nu'], q['theta0'], q['gamma'], q['h'], q['beta'], q['c']
+        try:
+            a = P.phi_1D(xx, nu=nu, theta0=th, gamma=gamma, h=h, beta=beta)
+            b = P.phi_1D(xx, nu=c * nu, theta0=th / c, gamma=gamma / c, h=h, beta=beta)
+        except Exception as e:
+            chk.fail(key + ':raises:' + type(e).__name__, 'phi_1D raises %r' % (e,), inp); continue
+        ok, err = eq_same(b, a)
+        if not ok:
+            chk.fail(key, 'phi_1D(nu=c*nu, theta0/c, gamma/c) differs from phi_1D(nu, theta0, gamma) by %.3g (entry-wise relative; inf = non-finite entries), '
+                     'c=%g nu=%g gamma=%g (gamma*nu*4beta/(beta+1)^2 = %g) h=%g beta=%g' % (err, c, nu, gamma, q['G'], h, beta), inp)
+
+def l3_equilibrium_X(chk, ctx, rng, n):
+    """the X-chromosome pair phi_1D_X / one_pop_X takes the same parameters relative to the same reference size"""
     dadi = ctx['dadi']; P = dadi.PhiManip
     xx = dadi.Numerics.default_grid(30)
     for it in range(n):
         nu = gen.loguniform(rng, 0.1, 10); th = float(rng.uniform(0.5, 2))
-        gamma = [0.0, float(rng.uniform(-20, 5)), float(rng.uniform(-20, 5))][it % 3]
-        h = [0.5, 0.5, float(rng.uniform(0.05, 0.95))][it % 3]
-        c = float(2.0 ** int(rng.integers(-3, 4)))
-        if c == 1.0: c = 4.0
-        key = 'equilibrium-rescale:%s' % ('snm' if gamma == 0 else ('genic' if h == 0.5 else 'dominance'))
+        gamma = 0.0 if it % 3 == 0 else float(rng.uniform(-20, 5))
+        h = float(rng.uniform(0.05, 0.95)); beta = gen.loguniform(rng, 0.3, 3); alpha = gen.loguniform(rng, 0.5, 3)
+        c = float(2.0 ** int(rng.choice([-3, -2, -1, 1, 2, 3]))) if it % 2 else gen.loguniform(rng, 0.05, 20)
+        key = 'equilibrium-rescale:X%s' % ('-neutral' if gamma == 0 else '')
         chk.l3((key,))
-        inp = dict(nu=nu, theta0=th, gamma=gamma, h=h, c=c)
-        a = P.phi_1D(xx, nu=nu, theta0=th, gamma=gamma, h=h)
-        b = P.phi_1D(xx, nu=c * nu, theta0=th / c, gamma=gamma / c, h=h)
-        ok, err, scale = close(b, a, rtol=1e-8)
+        inp = dict(nu=nu, theta0=th, gamma=gamma, h=h, beta=beta, alpha=alpha, c=c)
+        try:
+            a = P.phi_1D_X(xx, nu=nu, theta0=th, gamma=gamma, h=h, beta=beta, alpha=alpha)
+            b = P.phi_1D_X(xx, nu=c * nu, theta0=th / c, gamma=gamma / c, h=h, beta=beta, alpha=alpha)
+        except Exception as e:
+            chk.fail(key + ':raises:' + type(e).__name__, 'phi_1D_X raises %r' % (e,), inp); continue
+        ok, err = eq_same(b, a, rtol=1e-8)
         if not ok:
-            chk.fail(key, 'phi_1D(nu=c*nu, theta0/c, gamma/c) differs from phi_1D(nu, theta0, gamma) by %.3g (scale %.3g), c=%g nu=%g gamma=%g h=%g' % (err, scale, c, nu, gamma, h), inp)
+            chk.fail(key, 'phi_1D_X(nu=c*nu, theta0/c, gamma/c) differs from phi_1D_X(nu, theta0, gamma) by %.3g (entry-wise relative), c=%g nu=%g gamma=%g h=%g' % (
+                err, c, nu, gamma, h), inp)
 
 def l3_models(chk, ctx, rng, n):
     """whole library models with explicit theta: re-scaling leaves the spectrum unchanged"""
-    dadi = ctx['dadi']; D2 = dadi.Demographics2D; D1 = dadi.Demographics1D
+    dadi = ctx['dadi']; D2 = dadi.Demographics2D; D1 = dadi.Demographics1D; I = dadi.Integration
     pts = 24; ns2 = (5, 4)
     cases = []
     def two_epoch_sel(c, nu, T, g):
         xx = dadi.Numerics.default_grid(pts)
         phi = dadi.PhiManip.phi_1D(xx, nu=c, theta0=1.0 / c, gamma=g / c)
         phi = dadi.Integration.one_pop(phi, xx, T * c, nu * c, gamma=g / c, theta0=1.0 / c)
+        return dadi.Spectrum.from_phi(phi, (8,), (xx,))
+    def anc_sel_epoch(c, nuA, nu, T, g, h, growth):
+        # ancestral size differs from the reference size; selection acts from the start; then a size change (optionally exponential)
+        xx = dadi.Numerics.default_grid(pts)
+        phi = dadi.PhiManip.phi_1D(xx, nu=nuA * c, theta0=1.0 / c, gamma=g / c, h=h)
+        nuf = (lambda t: c * nuA * (nu / nuA) ** (t / (T * c))) if growth else nu * c
+        phi = dadi.Integration.one_pop(phi, xx, T * c, nuf, gamma=g / c, h=h, theta0=1.0 / c)
         return dadi.Spectrum.from_phi(phi, (8,), (xx,))
     def im_like(c, nu1, nu2, T, m12, m21, g):
         xx = dadi.Numerics.default_grid(pts)
@@ -279,19 +434,40 @@ def l3_models(chk, ctx, rng, n):
         phi = dadi.PhiManip.phi_2D_admix_1_into_2(phi, 0.3, xx, xx)
         phi = dadi.Integration.two_pops(phi, xx, 0.02 * c, nu1 * c, nu2 * c, theta0=1.0 / c)
         return dadi.Spectrum.from_phi(phi, ns2, (xx, xx))
+    def split_growth_sel(c, nu1, nu2, T, m, g):
+        # split, then exponential growth of population 2 with migration and selection (time-varying parameters: kernels built on the fly)
+        xx = dadi.Numerics.default_grid(16)
+        phi = dadi.PhiManip.phi_1D(xx, nu=c, theta0=1.0 / c, gamma=g / c)
+        phi = dadi.PhiManip.phi_1D_to_2D(xx, phi)
+        nu2f = lambda t: c * nu2 ** (t / (T * c))
+        phi = dadi.Integration.two_pops(phi, xx, T * c, nu1 * c, nu2f, m12=m / c, m21=m / c, gamma1=g / c, gamma2=g / c, theta0=1.0 / c)
+        return dadi.Spectrum.from_phi(phi, ns2, (xx, xx))
     for it in range(n):
-        c = float(2.0 ** int(rng.integers(-3, 4)))
-        if c == 1: c = 0.25
-        if it % 2 == 0:
-            args = (gen.loguniform(rng, 0.2, 5), float(rng.uniform(0.02, 0.1)), float(rng.uniform(-5, 3)) if it % 4 == 0 else 0.0)
+        k = it % 4
+        c = [float(2.0 ** int(rng.choice([-3, -2, -1, 1, 2, 3]))), 0.05, 20.0, gen.loguniform(rng, 0.05, 20)][int(rng.integers(4))]
+        delj = bool((it // 4) % 2) and k in (1, 3)
+        if k == 0:
+            args = (gen.loguniform(rng, 0.2, 5), float(rng.uniform(0.02, 0.1)), float(rng.uniform(-5, 3)) if it % 8 == 0 else 0.0)
             f = two_epoch_sel; key = 'model-rescale:two_epoch%s' % ('_sel' if args[2] != 0 else '')
-        else:
+        elif k == 1:
+            q = eq_params(rng, 6 * (it // 4) + (it // 4 + it // 16) % 2)      # genic / dominance alternately, strata in turn
+            nuA = q['nu']; g = q['gamma']; c = q['c']
+            nuB = nuA * gen.loguniform(rng, 0.3, 3)
+            T = float(rng.uniform(5, 30)) * I.timescale_factor / max(0.25 / min(nuA, nuB), abs(g) * 0.25)      # a few dozen time steps
+            args = (nuA, nuB, T, g, q['h'], bool(rng.integers(2)))
+            f = anc_sel_epoch; key = 'model-rescale:anc_sel_epoch:%s' % q['stratum']
+        elif k == 2:
             args = (gen.loguniform(rng, 0.2, 5), gen.loguniform(rng, 0.2, 5), float(rng.uniform(0.02, 0.08)), float(rng.uniform(0, 3)), float(rng.uniform(0, 3)), 0.0)
             f = im_like; key = 'model-rescale:split_mig_admix'
+        else:
+            args = (gen.loguniform(rng, 0.2, 5), gen.loguniform(rng, 0.2, 5), float(rng.uniform(0.01, 0.03)), float(rng.uniform(0, 3)), float(rng.uniform(-8, 4)))
+            f = split_growth_sel; key = 'model-rescale:split_growth_sel'
+        if delj: key += ':delj'
         chk.l3((key, c))
-        inp = dict(model=f.__name__, c=c, args=args)
+        inp = dict(model=f.__name__, c=c, args=args, use_delj_trick=delj)
         try:
-            a = f(1.0, *args); b = f(c, *args)
+            with delj_trick(I, delj):
+                a = f(1.0, *args); b = f(c, *args)
         except Exception as e:
             chk.fail(key + ':raises:' + type(e).__name__, 'model raises %r' % (e,), inp); continue
         ok, err, scale = close(np.asarray(b), np.asarray(a), rtol=1e-8)
@@ -308,11 +484,12 @@ def run(chk, ctx):
     q = tier == 'quick'
     k_dt(chk, ctx, rng, 60 if q else 400)
     k_sweep(chk, ctx, rng, 15 if q else 45, tier)
-    l3_superposition(chk, ctx, rng, 20 if q else 120, tier)
-    l3_rescale(chk, ctx, rng, 20 if q else 120, tier)
+    l3_superposition(chk, ctx, rng, 60 if q else 360, tier)
+    l3_rescale(chk, ctx, rng, 60 if q else 360, tier)
     l3_dt_wiring(chk, ctx, rng, 40 if q else 200)
-    l3_equilibrium(chk, ctx, rng, 9 if q else 45)
-    l3_models(chk, ctx, rng, 6 if q else 30)
+    l3_equilibrium(chk, ctx, rng, 48 if q else 480)
+    l3_equilibrium_X(chk, ctx, rng, 6 if q else 30)
+    l3_models(chk, ctx, rng, 16 if q else 96)
 
 def replay(chk, ctx, data):
     run(chk, ctx)
